@@ -23,7 +23,7 @@
 //            start fragment, truncated to the announced length, size = announced length + headers; nothing is handed out twice
 // Signatures carry the *input class* (what was unusual about the fragments), judged by a reference tracker that follows the
 // Core spec reading (a start fragment always begins a new SDU), never by looking at how the object failed:
-//          fragment-exceeds-remaining | start-during-reassembly | rejected-start-during-reassembly | wellformed
+//          fragment-exceeds-remaining | start-during-reassembly | rejected-start-during-reassembly | after-rejected-start | wellformed
 // (a fragment that cannot fit into the buffer at all names the class of a memory failure; else a start fragment that arrived
 // inside an incomplete SDU does - an accepted one rather than a rejected one)
 #include "C19_common.hpp"
@@ -33,7 +33,7 @@ namespace {
 using namespace c19;
 
 enum Kind : std::uint8_t { K_START = 2, K_CONT = 1, K_CTRL = 3, K_LLID0 = 0 };
-enum Anomaly : std::uint8_t { A_NONE, A_START_DURING, A_REJECTED_START_DURING, A_EXCEEDS };
+enum Anomaly : std::uint8_t { A_NONE, A_START_DURING, A_REJECTED_START_DURING, A_EXCEEDS, A_REJECTED_START };
 
 struct Frag
 {
@@ -66,7 +66,7 @@ struct World
     {
         std::uint8_t  c_sn, c_nesn;
         std::uint8_t  nq, nh;
-        Frag          q[ 8 ];           // PDUs stored in the receive ring, oldest first
+        Frag          q[ 12 ];           // PDUs stored in the receive ring, oldest first
         Frag          h[ 12 ];          // L2CAP fragments the SDU layer took out of the ring since the last delivered SDU
         // reference tracker (Core spec reading)
         std::uint8_t  active, sent_conts, anomaly, structural;  // since the last delivered SDU: anomaly = A_EXCEEDS if a fragment was longer than what was missing; structural = most recent start fragment inside an SDU
@@ -141,7 +141,7 @@ struct World
 
     static const char* anomaly_name( int a )
     {
-        return a == A_START_DURING ? "start-during-reassembly" : a == A_REJECTED_START_DURING ? "rejected-start-during-reassembly" : a == A_EXCEEDS ? "fragment-exceeds-remaining" : "wellformed";
+        return a == A_START_DURING ? "start-during-reassembly" : a == A_REJECTED_START_DURING ? "rejected-start-during-reassembly" : a == A_EXCEEDS ? "fragment-exceeds-remaining" : a == A_REJECTED_START ? "after-rejected-start" : "wellformed";
     }
 
     std::size_t sdu_used() const { return dut->receive_buffer_used_; }
@@ -157,6 +157,7 @@ struct World
         f.body = std::uint16_t( body );
         f.j = e.kind == K_CONT ? ref.sent_conts : 0;
 
+        if ( ref.nq == 12 ) return false;                              // the reference central never has more than 12 PDUs unconsumed
         std::uint8_t pre[ sizeof( dut_t ) ]; memcpy( pre, dut, sizeof pre );
         read_buffer rb{ nullptr, 0 }; write_buffer rsp{ nullptr, 0 };
         const std::string g = guarded( [&]
@@ -182,7 +183,7 @@ struct World
         const bool stored = f.kind != K_LLID0 && body != 0;           // ll_data_pdu_buffer drops LLID 0 and empty PDUs (C15)
         if ( stored )
         {
-            if ( ref.nq == 8 ) { c.fail( "harness:queue", "reference ring queue too small" ); return true; }
+            if ( ref.nq == 12 ) { c.fail( "harness:queue", "reference ring queue too small" ); return true; }
             ref.q[ ref.nq++ ] = f;
             if ( f.kind == K_CONT ) ref.sent_conts = ( ref.sent_conts + 1 ) & 3;
             if ( f.kind == K_START ) ref.sent_conts = 0;
@@ -213,6 +214,7 @@ struct World
         {
             const bool accepted = f.body >= 4 && f.lfield <= MTU;
             if ( ref.active ) u.structural = accepted ? A_START_DURING : A_REJECTED_START_DURING;
+            else if ( !accepted ) u.structural = A_REJECTED_START;          // too short for an L2CAP header or longer than the MTU
             ref.active = 0; ref.total = 0; ref.got = 0;
             if ( !accepted ) return u;
             ref.active = 1; ref.total = std::uint16_t( f.lfield + 4 ); ref.got = f.body;
@@ -266,7 +268,7 @@ struct World
             if ( ref.q[ i ].kind == K_START || ref.q[ i ].kind == K_CONT )
             {
                 const Unusual u = track( ref.q[ i ] );
-                if ( u.structural == A_START_DURING || ( u.structural != A_NONE && structural == A_NONE ) ) structural = u.structural;
+                if ( u.structural == A_START_DURING || ( u.structural != A_NONE && ( structural == A_NONE || structural == A_REJECTED_START ) ) ) structural = u.structural;
                 exceeded = exceeded || u.exceeds;
                 no_fit = no_fit || u.does_not_fit;
             }
@@ -318,7 +320,7 @@ struct World
         // remove what was taken from the reference queue
         for ( int i = taken; i < ref.nq; ++i ) ref.q[ i - taken ] = ref.q[ i ];
         ref.nq = std::uint8_t( ref.nq - taken );
-        for ( int i = ref.nq; i != 8; ++i ) memset( &ref.q[ i ], 0, sizeof( Frag ) );
+        for ( int i = ref.nq; i != 12; ++i ) memset( &ref.q[ i ], 0, sizeof( Frag ) );
 
         if ( d1.size == 0 )
         {
@@ -415,7 +417,11 @@ int main( int argc, char** argv )
     total.unit = a.opt.count( "unit" ) ? a.opt[ "unit" ] : mc::fmt( "C19_rx-mtu%d-max%d", MTU, MAXS );
     static World w;
     const bool th = a.thorough();
-    const std::vector< Pass > passes = { { "wide", true, int( a.num( "wide-depth", th ? 5 : 4 ) ) }, { "deep", false, int( a.num( "deep-depth", th ? 9 : 7 ) ) } };
+    // the 251 byte configurations have a four times larger state image and thousands of ASan reports: one level less
+    const int less = MAXS > 100 ? 1 : 0;
+    // thorough: the wide pass keeps its depth but gets the larger alphabet (33..36 instead of 21..23 events)
+    // (the cheap deep pass runs first, the wide one gets all the time that is left)
+    const std::vector< Pass > passes = { { "deep", false, int( a.num( "deep-depth", ( th ? 9 : 7 ) - ( th ? 2 : 1 ) * less ) ) }, { th ? "wide-large" : "wide", true, int( a.num( "wide-depth", 4 - less ) ) } };
     std::string only;
     if ( !a.replay.empty() )
     {   // the trace's "detail" line starts with the pass name
@@ -425,11 +431,12 @@ int main( int argc, char** argv )
     total.exhaustive = true;
     for ( std::size_t pi = 0; pi != passes.size(); ++pi )
     {
-        if ( !only.empty() && only != passes[ pi ].name ) continue;
-        w.set_alphabet( passes[ pi ].wide, th );
+        // replay: the pass name in the trace, not the tier of the replaying run, selects the alphabet
+        if ( !only.empty() && only != passes[ pi ].name && !( passes[ pi ].wide && only.rfind( "wide", 0 ) == 0 ) ) continue;
+        w.set_alphabet( passes[ pi ].wide, only.empty() ? th : only == "wide-large" );
         w.seen_classes.clear();
         mc::Report rep; rep.property = "C19"; rep.unit = total.unit;
-        mc::Args pa = a; pa.start = mc::now_s(); pa.deadline = a.remaining() / double( passes.size() - pi );
+        mc::Args pa = a; pa.start = mc::now_s(); pa.deadline = pi + 1 == passes.size() ? a.remaining() : a.remaining() / 2;
         mc::BfsOptions o; o.max_depth = passes[ pi ].depth; o.max_states = 3000000;
         mc::Bfs< World > bfs( w, rep, pa, o );
         if ( !a.replay.empty() ) return bfs.replay_file( mc::read_replay( a.replay ) );
